@@ -32,7 +32,7 @@ ASSUMPTIONS = [
     'errstate (the statement scopes the reactions profile only)',
 ]
 ANCHORS = ['ErrorProfile.register', 'ErrorProfile.unregister', 'ErrorProfile.test', 'ErrorProfile._handle_error', 'seterr', 'geterr', 'seterrcall', 'geterrcall', 'errcheck', 'errstate']
-REQUIRED = ['own_profile_tests', 'own_profile_refusals', 'loud_reactions_checked', 'errstate_prebuilt_blocks',
+REQUIRED = ['own_profile_falsy_callable_callbacks', 'own_profile_tests', 'own_profile_refusals', 'loud_reactions_checked', 'errstate_prebuilt_blocks',
             'errstate_decorated_then_profile_changed', 'two_kind_reactions_checked', 'refused_calls_naming_all', 'steps_checked', 'errstate_decorated_calls',
             'errstate_exception_exits', 'refused_calls',
             'reaction_raise', 'reaction_ignore', 'reaction_warn',
@@ -804,6 +804,15 @@ def run_own_profile(ctx, r, index):
             tag = '%s-cb%d' % (nm, len(steps))
             cb = (lambda item, tag=tag: called.append((tag, item))) \
                 if withcb else None
+            if withcb and r.random() < .4:
+                # a callable object that is falsy while it has recorded
+                # nothing (a list with __call__) is a callback all the same
+                class Recorder(list):
+                    def __call__(self, item, tag=tag):
+                        called.append((tag, item))
+                        self.append(item)
+                cb = Recorder()
+                ctx.count('own_profile_falsy_callable_callbacks')
             steps.append(('register', nm, st, mod, exc.__name__, withcb))
             try:
                 prof.register(nm, msg, st, mk_pred(mod, rem), callback=cb,
